@@ -891,6 +891,8 @@ impl Machine {
         let mut local_heap_closures: Vec<heap::HeapIdx> = vec![];
         let mut upv_map = LocalUpValueMap::default();
         let mut pcounter = 0;
+        // position in `delay_sizes` of the next delay executed by this activation
+        let mut delaysize_i = 0;
         // if cfg!(test) {
         //     log::trace!("{:?}", func);
         // }
@@ -1365,15 +1367,14 @@ impl Machine {
                 Instruction::Delay(dst, src, time) => {
                     let i = self.get_stack(src as i64);
                     let t = self.get_stack(time as i64);
-                    let delaysize_i =
-                        unsafe { self.delaysizes_pos_stack.last().unwrap_unchecked() };
-
+                    // `delay_sizes` has one entry per delay of this function, in code order
                     let size_in_samples = unsafe {
                         *self
                             .get_fnproto(func_i)
                             .delay_sizes
-                            .get_unchecked(*delaysize_i)
+                            .get_unchecked(delaysize_i)
                     };
+                    delaysize_i += 1;
                     let mut ringbuf = self.get_current_state().get_as_ringbuffer(size_in_samples);
 
                     let res = ringbuf.process(i, t);
